@@ -198,6 +198,14 @@ def build(spec):
         return T.Enum(list(V.dec(spec[1])))
     if k == "Map":
         return T.Map(dict((V.dec(a), V.dec(b)) for a, b in spec[1]))
+    if k == "MapMut":
+        # the dictionary handed to Map is changed AFTER the trait was defined (keys dropped and added): whatever the trait
+        # does about that, its compiled and its Python validator must keep consulting the same mapping
+        d = dict((V.dec(a), V.dec(b)) for a, b in spec[1])
+        t = T.Map(d)
+        d.clear()
+        d.update(dict((V.dec(a), V.dec(b)) for a, b in spec[2]))
+        return t
     if k == "PrefixList":
         return T.PrefixList(list(spec[1]))
     if k == "PrefixMap":
@@ -309,6 +317,8 @@ def ref(spec, v, owner=None):
 def _ref(spec, v, owner):
     if spec[0] == "InstanceClone":
         spec = ["Instance", spec[1], spec[3], None]
+    if spec[0] == "MapMut":
+        spec = ["Map", spec[2]]
     k = spec[0]
     if k.startswith("Base") and k != "BaseRange":
         k = k[4:]
@@ -564,6 +574,8 @@ def in_domain(spec, x, owner=None):
     """Independent predicate on a *stored* value: does it lie in the declared domain? (None = cannot tell)"""
     if spec[0] == "InstanceClone":
         spec = ["Instance", spec[1], spec[3], None]
+    if spec[0] == "MapMut":
+        spec = ["Map", spec[2]]
     k = spec[0]
     if k.startswith("Base") and k != "BaseRange":
         k = k[4:]
@@ -666,6 +678,8 @@ def grid():
           ["String", 0, 4, "^[a-z]*$"], ["String", 2, None, "^[a-z]*$"], ["String", 0, 2, ""], ["String", 3, None, ""],
           ["List", ["Int"], 0, None], ["List", ["Int"], 1, 2], ["List", ["Float"], 0, None], ["List", ["Str"], 0, 3],
           ["Dict", ["Str"], ["Int"]], ["Dict", ["Int"], ["Float"]], ["Set", ["Int"]], ["Set", ["Str"]], ["None"]]
+    g += [["MapMut", [["yes", 1], ["no", 0]], [["yes", 1], ["maybe", 2]]],
+          ["Either", [["MapMut", [["yes", 1], ["no", 0]], [["yes", 1], ["maybe", 2]]], ["Int"]]]]
     g += [["InstanceClone", "Foo", True, False], ["InstanceClone", "Foo", False, True], ["InstanceClone", "int", True, False]]
     g += [["Instance", "Plain", False, "yes"], ["Instance", "Plain", True, "default"], ["Instance", "Plain", True, "yes"],
           ["Either", [["Instance", "Plain", False, "yes"], ["Int"]]],
